@@ -77,7 +77,8 @@ def check_which(c, repo):
     first = [t for t in g.nodes if t.kind == 'test' and 'os.path.dirname(%s)' % fn in norm(t.ast)]
     c.need(len(first) == 1, 'which: explicit-path test not found')
     t0 = first[0]
-    ok = 'is_executable_file(%s)' % fn in norm(t0.ast) and isinstance(t0.ast, ast.BoolOp) and isinstance(t0.ast.op, ast.And)
+    ok = isinstance(t0.ast, ast.BoolOp) and isinstance(t0.ast.op, ast.And) and \
+        sorted(norm(v) for v in t0.ast.values) == sorted(["os.path.dirname(%s) != ''" % fn, 'is_executable_file(%s)' % fn])
     r0 = [r for r in rets if r in guard_region(g, t0, 'true') and is_name(r.ast.value, fn)]
     c.check(ok and len(r0) == 1, f, t0.ast, 'a name with a directory part that is executable is returned as given', witness=norm(t0.ast), kind='ast', tag='explicit-path')
     anyget = cfg_nodes_with_call(f, lambda k: callee_last(k) == 'get' and k.args and is_const(k.args[0], 'PATH'))
@@ -120,6 +121,18 @@ def check_which(c, repo):
     hdr = g.node_of_stmt(loop)
     last = [r for r in rets if is_const(r.ast.value, None)]
     c.check(len(last) == 1, f, last[0].ast if last else None, 'None when nothing is found', kind='ast', tag='not-found')
+    # is_executable_file: regular file (symlinks followed) with the execute permission
+    ie = repo.func('utils:is_executable_file')
+    gie = ie.cfg
+    rp_ = [n for n in gie.nodes if n.kind == 'stmt' and isinstance(n.ast, ast.Assign) and norm(n.ast.value) == 'os.path.realpath(%s)' % ie.params[0]]
+    c.check(len(rp_) == 1, ie, rp_[0].ast if rp_ else None, 'symlinks are followed (os.path.realpath) before the checks', kind='ast', tag='realpath')
+    if rp_:
+        fpv = rp_[0].ast.targets[0].id
+        tf = [t for t in gie.nodes if t.kind == 'test' and norm(t.ast) == 'not os.path.isfile(%s)' % fpv]
+        rf = [r for t in tf for r in guard_region(gie, t, 'true') if r.kind == 'stmt' and isinstance(r.ast, ast.Return) and is_const(r.ast.value, False)]
+        c.check(len(tf) == 1 and len(rf) == 1, ie, tf[0].ast if tf else None, 'directories and other non-files are never executable candidates', kind='path', tag='isfile')
+        last = [r for r in returns(ie) if norm(r.ast.value) == 'os.access(%s, os.X_OK)' % fpv]
+        c.check(len(last) == 1, ie, last[0].ast if last else None, 'a regular file qualifies iff os.access(<file>, os.X_OK)', kind='ast', tag='x-ok')
     # _spawn
     sp = repo.func('pty_spawn:spawn._spawn')
     ws = [k for k in calls_in(sp.node) if callee_last(k) == 'which']
@@ -237,6 +250,8 @@ MUTANTS = [
     ('split-no-final-push', 'utils', "    if arg != '':\n        arg_list.append(arg)\n    return arg_list", "    return arg_list", 'D1'),
     ('split-push-no-reset', 'utils', "                    arg_list.append(arg)\n                    arg = ''\n                    state = state_whitespace", "                    arg_list.append(arg)\n                    state = state_whitespace", 'D1'),
     ('split-strips-first', 'utils', "    for c in command_line:\n", "    for c in command_line.strip():\n", 'D1'),
+    ('which-explicit-inverted', 'utils', "    if os.path.dirname(filename) != '' and is_executable_file(filename):", "    if os.path.dirname(filename) == '' and is_executable_file(filename):", 'D2'),
+    ('isexec-accepts-dirs', 'utils', "    if not os.path.isfile(fpath):\n        # non-files (directories, fifo, etc.)\n        return False\n", "", 'D2'),
     ('which-environ-always', 'utils', "    if env is None:\n        env = os.environ\n    p = env.get('PATH')", "    p = os.environ.get('PATH')", 'D2'),
     ('which-last-match', 'utils', "        if is_executable_file(ff):\n            return ff\n    return None", "        if is_executable_file(ff):\n            found = ff\n    return found if pathlist else None", 'D2'),
     ('which-sorted-path', 'utils', "    pathlist = p.split(os.pathsep)", "    pathlist = sorted(p.split(os.pathsep))", 'D2'),
